@@ -919,7 +919,40 @@ fn main() {
     run.exhaustive = true;
     let dump = std::env::args().any(|a| a == "--dump");
 
-    let (ops, mut skipped) = build_ops(run.quick());
+    let (ops, mut skipped) = build_ops(run.quick() && run.replay.is_none());
+    if let Some(p) = run.replay.clone() {
+        // replay one witness: {"op": name, "mode": once|sticky|flag|delay|probe, "params": {"k":..}|{"delay_us":..,"cb_sleep_us":..}}
+        let v: Value = serde_json::from_slice(&std::fs::read(&p).expect("replay file")).expect("json");
+        let w = &v["witness"];
+        let name = w["op"].as_str().unwrap_or("");
+        let Some(i) = ops.iter().position(|o| o.name == name) else {
+            println!("replay: operation {name} not available");
+            std::process::exit(2);
+        };
+        let probe = run_op(&ops[i], Mode::Probe);
+        let k = w["params"]["k"].as_u64().unwrap_or(1) as usize;
+        let mode = match w["mode"].as_str().unwrap_or("") {
+            "once" => Mode::Once(k),
+            "sticky" => Mode::Sticky(k),
+            "flag" => Mode::Flag(k),
+            "delay" => Mode::Delay { us: w["params"]["delay_us"].as_u64().unwrap_or(0), cb_sleep_us: w["params"]["cb_sleep_us"].as_u64().unwrap_or(0) },
+            _ => Mode::Probe,
+        };
+        let mut bad = check_events(&probe.events).len();
+        for e in &probe.events {
+            println!("replay probe event: {}", ev_json(e));
+        }
+        if mode != Mode::Probe {
+            let out = run_op(&ops[i], mode);
+            let r = judge(i, &ops[i], mode, &probe.events, &out);
+            println!("replay: class={:?} unjudged={:?}", r.class, r.unjudged);
+            for (sig, what, _) in &r.violations {
+                println!("replay violation: sig={sig} :: {what}");
+            }
+            bad += r.violations.len();
+        }
+        std::process::exit(if bad > 0 { 1 } else { 0 });
+    }
     // probe runs
     let probes = par::par_map(ops.len(), |i| run_op(&ops[i], Mode::Probe));
     let mut usable: Vec<usize> = Vec::new();
